@@ -337,7 +337,7 @@ def main(ctx, replay):
     rng = random.Random(ctx.seed)
     info = C.prologue(ctx)
     if info["hbin"] is None:
-        raise RuntimeError("harness build failed:\n" + info.get("go_log", ""))
+        raise C.HarnessBuildFailed(info.get("go_log", ""))
     quick = ctx.tier == "quick"
     n_cfg = 18 if quick else 120
     n_compile = 150 if quick else 1500
